@@ -52,6 +52,7 @@ def r_shape(ctx) -> RuleResult:
                          f"serialize_molecule can return the token string `{w}`, which the published grammar rejects{why}",
                          line=ser.node.lineno, extra={"witness": list(wit), "shape": s[:400]}))
     ctx.cache["shape_emissions"] = I.emissions
+    ctx.cache["shape_automaton"] = A
     res.counts = {"product_states": states, "shape_pieces": len(shape.p), "element_symbols": len(symbols)}
     res.notes = I.notes[:6] + [f"attribute value holes: INT≥{value_lo}" if value_lo else "attribute value holes unbounded (R-ZERO reports)"]
     res.trusted = ["every producer of element_symbol indexes ELEMENT_ATTRS with it (R-SIBKEYS, parser _add_atoms), so Counter keys ⊆ the table's symbols",
@@ -91,4 +92,51 @@ def r_layout(ctx) -> RuleResult:
     if not {"edges", "nodes"} <= kinds:
         raise AnalysisError(f"R-LAYOUT: emission of {sorted({'edges', 'nodes'} - kinds)} not seen in the serializer")
     res.trusted = ["sorted() without key/reverse returns ascending order; tuples of ints compare lexicographically"]
+    return res
+
+
+WITNESSES = [
+    ("a single atom carrying both an isotope mass and a radical", "C / / ( 1 : mass = 13 , rad = 2 )"),
+    ("two labelled atoms (two attribute blocks)", "C H 4 / ( 1 - 5 ) ( 2 - 5 ) ( 3 - 5 ) ( 4 - 5 ) / ( 1 : mass = 2 ) ( 5 : mass = 13 )"),
+    ("a plain bond list", "H 2 / ( 1 - 2 )"),
+    ("a molecule without bonds and without labels", "He /"),
+    ("a carbon-free formula in alphabetical order", "Cl Na /"),
+    ("counts above nine and indices above nine", "C 10 H 22 / ( 1 - 23 ) ( 11 - 32 )"),
+    ("a radical only", "C H 3 / ( 1 - 4 ) ( 2 - 4 ) ( 3 - 4 ) / ( 4 : rad = 2 )"),
+]
+
+
+def _tokens(w: str, number: str):
+    out = []
+    for t in w.split():
+        out.append(number if t.isdigit() and len(t) > 1 else t)
+    return out
+
+
+@rule("R-EXPRESS")
+def r_express(ctx) -> RuleResult:
+    """the other direction of R-SHAPE, for a handful of canonical strings: since the computed shape over-approximates
+    what the serializer can return, a canonical string outside it can never be produced"""
+    res = RuleResult("R-EXPRESS", "canonical strings of representative molecules lie inside the serializer's output shape (a string outside the over-approximation can never be emitted, so that molecule's information would be lost)")
+    from ..check import run_rules
+    sh = run_rules(ctx, ["R-SHAPE"])[0]
+    if sh.error:
+        raise AnalysisError(f"R-EXPRESS needs the shape interpretation: {sh.error}")
+    A = ctx.cache.get("shape_automaton")
+    if A is None:
+        raise AnalysisError("R-EXPRESS: no shape automaton")
+    G = grammars(ctx)
+    number = next(iter(G.ebnf_lex), "GREATER_THAN_NINE")
+    ser = entry(ctx, "serialize")
+    Gd = G.det("ebnf", "tucan")
+    for what, w in WITNESSES:
+        toks = _tokens(w, number)
+        if not Gd.accepts(toks):
+            raise AnalysisError(f"R-EXPRESS: witness `{w}` is not a sentence of the grammar (witness table out of date)")
+        ok = A.accepts(toks)
+        res.inst(ser.fq, f"can emit `{w}`", "ok" if ok else "fail", detail=what)
+        if not ok:
+            res.fail(Finding("R-EXPRESS", ser.module.rel, ser.qualname, f"cannot emit: {w}",
+                             f"no path of the serializer can produce `{w}` ({what}): the string of such a molecule drops or merges information, so different molecules share a string",
+                             line=ser.node.lineno))
     return res
